@@ -318,7 +318,7 @@ def rule_rerun_starts_clean(ctx):
 
 RULES = [
     Rule("R-C01-11", "a reverted optional step forgets what its run amended (same end state as a build that never ran it)", C07.rule_revert_forgets_run, min_instances=5),
-    Rule("R-C01-10", "a rerun starts from the declaration", rule_rerun_starts_clean, min_instances=9),
+    Rule("R-C01-10", "a rerun starts from the declaration", rule_rerun_starts_clean, min_instances=10),
     Rule("R-C01-1", "staleness reaches memories (detached-inclusive selectors)", rule_staleness_reaches_memories, min_instances=8),
     Rule("R-C01-2", "skip only after both digests matched", rule_skip_after_digests, min_instances=7),
     Rule("R-C01-4", "a rerun starts from the declared state", rule_rerun_from_declared_state, min_instances=16),
@@ -329,6 +329,7 @@ RULES = [
 ]
 
 MUTANTS = [
+    Mutant("reset-keeps-deferred-flag", "step.py", in_function("Step.reset_for_rerun", replace_once('        self.db.execute("UPDATE step SET deferred = FALSE WHERE node = ? AND deferred", (self.i,))\n', "")), ("R-C01-10",)),
     Mutant("rerun-keeps-dynamic-input-rows", "step.py", in_function("Step.reset_for_rerun", replace_once('        self.db.executemany("DELETE FROM dynamic_dep WHERE i = ?", ((row[0],) for row in rows))\\n'.replace("\\n", "\n"), ''.replace("\\n", "\n"))), ("R-C01-10",)),
     Mutant("rerun-keeps-dynamic-input-edges", "step.py", in_function("Step.reset_for_rerun", replace_once('        self.del_sources([self.graph.node_from_row(i, kind, label) for _, i, label, kind in rows])\\n'.replace("\\n", "\n"), ''.replace("\\n", "\n"))), ("R-C01-10",)),
     Mutant("rerun-keeps-dynamic-output-rows", "step.py", in_function("Step.reset_for_rerun", replace_once('        self.db.executemany("DELETE FROM dynamic_dep WHERE i = ?", ideps_sink)\\n'.replace("\\n", "\n"), ''.replace("\\n", "\n"))), ("R-C01-10",)),
